@@ -214,6 +214,18 @@ def build_cases(ck, T, cov):
             if rng.random() < 0.15:
                 mu = G.mutate(rng, mu, [], min(hlen, len(mu)), mode, m, cov)
             cases.append((rng.choice([0, 1]), -1 if rng.random() < 0.9 else rng.randrange(0, 3), mu, 'mut-' + mode))
+    # byte-order twins: the same random problem written native and byte-swapped (same generator state)
+    twins = []
+    for i in range(60 if ck.tier == 'quick' else 600):
+        st = rng.getstate()
+        d1, _, _, _ = G.gen_valid(rng, T, 'bin', {})
+        rng.setstate(st)
+        d2, _, _, _ = G.gen_valid(rng, T, 'binswap', {})
+        fl = rng.choice([0, 1])
+        twins.append((len(cases), len(cases) + 1))
+        cases.append((fl, -1, d1, 'twin-native'))
+        cases.append((fl, -1, d2, 'twin-swapped'))
+    build_cases.twins = twins
     return cases
 
 
@@ -445,6 +457,27 @@ def run(ck):
                              replay_obj(i, {'impl': il[:1500], 'model': ml[:1500], 'correspondence': 'drv_c02 vs h_nlread'}), found_input=False)
         if i % 997 == 0:
             ck.sample((il[:300]))
+    # byte-order twins: identical notifications from the real reader except the header's arith_kind
+    n_twins = 0
+    for a, b in getattr(build_cases, 'twins', []):
+        la, lb = impl.get(a), impl.get(b)
+        if la is None or lb is None:
+            continue
+        def norm(l):
+            pr = l.split(' | ')
+            toks = pr[1].split()
+            if toks and toks[0].startswith('H:'):
+                h = toks[0][2:].split(',')
+                h[12] = '*'
+                toks[0] = 'H:' + ','.join(h)
+            out = pr[0].split(' ', 1)[1]
+            out = re.sub(r'^berr:(\w+):\d+$', r'berr:\1', out)
+            return out + ' ' + ' '.join(toks)
+        n_twins += 1
+        if norm(la) != norm(lb):
+            ck.add_violation('swapped-vs-native', 'the byte-swapped and the native encoding of the same problem give different notifications',
+                             replay_obj(a, {'native': la[:1200], 'swapped': lb[:1200], 'swapped_case_line': 'case %d %d %d %s' % (b, cases[b][0], cases[b][1], cases[b][2].hex())}))
+    ck.cov['byte_order_twins_compared'] = n_twins
     # strtod stream
     bad_strtod = 0
     for k, s in enumerate(strtods):
